@@ -8,6 +8,14 @@ checks = {
    technique="runtime monitor: differential round-trip oracle over generated streams × reader configurations, Go race detector, poison-on-release hook, injected worker delays",
    text="Held on every generated (stream set × reader configuration) execution of the real ZNG writer/reader built with -race: output sequence equals input sequence position by position on harness-computed type strings and value bytes; the race detector and poison-on-release make stale-buffer use and unsynchronized worker state observable. Exploration is the right level because the quantifier (inputs × configurations × worker schedules) is unbounded.",
    note="trusts the harness generator/printer (internal/gen) and the Go race detector; worker interleavings are those the scheduler plus injected delays produced (counted in evidence), not all of them"),
+ "C14": dict(level="exploration", design="DESIGN.md §3 C14",
+   technique="runtime monitor: model-based history checker (object-level reference model, independent reads of stored objects and seek indexes) over exhaustive short and random long lake histories on an instrumented in-memory storage engine",
+   text="Held on every explored history step: branch query multiset, metadata listing, per-object count/key range/sortedness, seek-index tiling and pool-key order of the scan agree with a reference model that learns object contents straight from storage; checked from the acting handle and a cold one, with object-store and file semantics. Exploration is the right level: histories × inputs × configurations are unbounded; short histories over a 9-op alphabet are enumerated exhaustively.",
+   note="trusts the harness model (internal/lk/model.go), its own key order for the generated key domain (numbers < strings < null/missing) and the ZNG reader used to read stored objects (C01); built without -race (single client; see DESIGN.md §2.2)"),
+ "C17": dict(level="fault_enumeration", design="DESIGN.md §3 C17",
+   technique="runtime fault injection: fail-stop crash enumerated at every storage operation (and every write prefix / half-applied write on file semantics) of the victim operation, on an instrumented storage engine; recovery oracle = cold reopen, before-or-after state, fixed follow-up workload",
+   text="For every explored (history, victim operation, back end) the crash point is enumerated over the victim's whole storage trace; after each crash a cold handle must open the lake, read every pool and branch, observe exactly the before- or after-state (as observed on uncrashed clones) and complete a fixed follow-up workload; double crashes are sampled. Fault enumeration is the right level because the quantifier is 'every storage operation of every mutation'.",
+   note="fail-stop model (the crashing operation and all later ones have no effect, optionally a half-applied write); durable, ordered storage; the file back end is a model of pkg/storage/file.go (truncate-then-write Put, create-then-fill PutIfNotExists); built without -race"),
 }
 not_built = {
 }
